@@ -68,10 +68,12 @@ class CallFunction(Node):
         self.in_tell_operation: bool = False
         self.with_result = with_result
         
-    def gv_as_sym(self):
+    def gv_as_sym(self) -> Optional[Node]:
         # Sometimes Macromedia Director creates symbols instead of
         # global variables. So we need to ensure that any parameter that
-        # is a symbol makes sense in that position
+        # is a symbol makes sense in that position.
+        # Returns the parameters to print; the AST is not modified (the
+        # operand list may be shared with other nodes).
         if self.parameters is not None:
             params: LoadListOperation = cast(LoadListOperation, self.parameters)
             operands = params.operands
@@ -82,15 +84,20 @@ class CallFunction(Node):
                 if (self.name.lower() in LIST_FUNCTIONS
                     and isinstance(operands[idx], Symbol)):
                     sym: Symbol = cast(Symbol, operands[idx])
-                    operands[idx] = GlobalVariable(sym.name, sym.position)
+                    fixed = LoadListOperation(params.name, params.position)
+                    fixed.operands = operands[0:idx]
+                    fixed.operands.append(GlobalVariable(sym.name,
+                                                         sym.position))
+                    return fixed
+        return self.parameters
 
     def generate_lingo(self, indentation: int) -> str: 
-        self.gv_as_sym()     
+        parameters = self.gv_as_sym()     
         
-        if (self.parameters is not None
-            and len(cast(LoadListOperation, self.parameters).operands) > 0):
+        if (parameters is not None
+            and len(cast(LoadListOperation, parameters).operands) > 0):
             
-            params: LoadListOperation = cast(LoadListOperation, self.parameters)
+            params: LoadListOperation = cast(LoadListOperation, parameters)
             if 'sound' == self.name:
                 # The modifier is the last operand: read it without removing
                 # it from the (shared) operand list
@@ -109,15 +116,15 @@ class CallFunction(Node):
             return self.name
 
     def generate_js(self, indentation: int, factory_method: bool) -> str:
-        self.gv_as_sym()
+        parameters = self.gv_as_sym()
 
         nm = self.name
         if nm == 'birth':
             nm = '_movie.newScript'
         
         params_str: str = ''
-        if self.parameters is not None:
-            params: Node = cast(Node, self.parameters)
+        if parameters is not None:
+            params: Node = cast(Node, parameters)
             params_str = params.generate_js(indentation, factory_method)
             
         if nm == 'new':
@@ -144,7 +151,7 @@ class CallFunction(Node):
             nm = 'resume'
         
         if factory_method and nm == 'me':
-            pars: LoadListOperation = cast(LoadListOperation, self.parameters)
+            pars: LoadListOperation = cast(LoadListOperation, parameters)
             oplist: List[str] = []
             for s in pars.operands:
                 oplist.append(str(s.generate_js(indentation, factory_method)))
